@@ -1144,15 +1144,8 @@ func (d *dealer) syncYield(callee *wamp.Session, msg *wamp.Yield, progress, canR
 
 		// Let's check: was ppt feature announced by callee?
 		if !callee.HasFeature(wamp.RoleCallee, wamp.FeaturePayloadPassthruMode) {
-			// Notify caller that CALL was erred.
-			d.trySend(caller, &wamp.Error{
-				Type:    msg.MessageType(),
-				Request: msg.Request,
-				Details: wamp.Dict{
-					"error": ErrPPTNotSupportedByPeer.Error(),
-				},
-				Error: wamp.ErrFeatureNotSupported,
-			})
+			// Notify caller that CALL was erred. This ends the call.
+			d.syncFailCall(invk, invkReqID, caller, ErrPPTNotSupportedByPeer)
 			// Protocol violation, so need to abort connection.
 			abortMsg := wamp.Abort{Reason: wamp.ErrProtocolViolation}
 			abortMsg.Details = wamp.Dict{}
@@ -1172,6 +1165,9 @@ func (d *dealer) syncYield(callee *wamp.Session, msg *wamp.Yield, progress, canR
 				},
 				Error: wamp.ErrFeatureNotSupported,
 			})
+			// The result cannot be delivered. The caller still gets a final
+			// reply for its call.
+			d.syncFailCall(invk, invkReqID, caller, ErrPPTNotSupportedByPeer)
 			return false
 		}
 
@@ -1201,6 +1197,25 @@ func (d *dealer) syncYield(callee *wamp.Session, msg *wamp.Yield, progress, canR
 			wamp.CancelModeKillNoWait, wamp.ErrCanceled, nil)
 	}
 	return false
+}
+
+// syncFailCall ends a call whose result cannot be passed on: the call is
+// forgotten and the caller receives an ERROR for its CALL.
+func (d *dealer) syncFailCall(invk *invocation, invkReqID requestID, caller *wamp.Session, cause error) {
+	if invk.timerCancel != nil {
+		invk.timerCancel()
+	}
+	delete(d.invocations, invkReqID)
+	delete(d.invocationByCall, invk.callID)
+	delete(d.calls, invk.callID)
+	d.trySend(caller, &wamp.Error{
+		Type:    wamp.CALL,
+		Request: invk.callID.request,
+		Details: wamp.Dict{
+			"error": cause.Error(),
+		},
+		Error: wamp.ErrFeatureNotSupported,
+	})
 }
 
 func (d *dealer) syncError(callee *wamp.Session, msg *wamp.Error) {
